@@ -12,13 +12,18 @@ prop(
         dict(run="^TestPropKnownClasses$",
              quick=dict(checks=16000, shards=16, timeout=600),
              thorough=dict(checks=800000, shards=16, timeout=7200)),
+        dict(run="^TestPropMaskedInScalar$",
+             quick=dict(checks=4000, shards=8, timeout=600),
+             thorough=dict(checks=80000, shards=16, timeout=7200)),
         dict(run="^$", fuzz="FuzzPositions", thorough=dict(fuzztime="420s", timeout=1200)),
     ],
     rule="generated rule documents (ruledoc x yamlstyle: plain/single/double quoted, literal/folded with every chomping indicator, multi-line "
          "plain/quoted, flow maps, comments, blank lines, indentation 1-6, strict / relaxed list / wrapped / YAML-in-block-scalar layouts); for every "
          "field node pint extracts the file characters at its positions must spell a prefix of its value covering all but trailing line breaks; "
          "rule line ranges enclose the fields; for a third of the cases the default checks run and every diagnostic's column range and console "
-         "caret line must land on value[first-1:last]. Non-trivial: a document with a multi-range (multi-line) field, or a quoted or block scalar.",
+         "caret line must land on value[first-1:last] (half of those with the configurable checks switched on as well). A further generator puts "
+         "lines hidden by pint ignore/line, ignore/next-line and ignore/begin..end inside literal and folded values (spaces of the value may then "
+         "sit on any character of a hidden line). Non-trivial: a document with a multi-range (multi-line) field, or a quoted or block scalar.",
     level_text="Generated-input search (rapid, fixed seeds) with a round-trip oracle: the file itself is the reference for every position pint reports. "
                "Held on N generated documents; known classes are listed in known_findings.json and excluded by construction from the main property.",
     level_note="Trusts gopkg.in/yaml.v3's decoded values (pint's own Value) and the harness' YAML emitter to produce valid YAML. Trailing line breaks of "
